@@ -3,6 +3,7 @@ package all
 
 import (
 	_ "verifsim/worlds/circfile"
+	_ "verifsim/worlds/compiledet"
 	_ "verifsim/worlds/conn"
 	_ "verifsim/worlds/gmwworld"
 	_ "verifsim/worlds/kos"
